@@ -16,7 +16,9 @@ WALL = {'quick': 100, 'thorough': 1500}
 CHUNK = 50
 STD4 = [['flux_surface', [0, 3, 1, 2]], ['v_parallel', [0, 2, 1, 3]], ['poloidal', [3, 2, 1, 0]]]
 REQUIRED_PROBES = ['restore_after_2plus_layout_changes', 'illegal_op_refused', 'mgr_handler', 'mgr_swapper', 'no_save_memory']
-RULE = ('cases 0..398 (quick; thorough also 399..1196 on two more configurations) = every operation '
+RULE = ("Every check: in 12% of the cases one or two bystander ranks share the simulated job and the code under test runs on world.Split(...); one case in HASHSEED_EVERY is re-run in fresh interpreters under other string-hash seeds and every rank's trace (collectives, data sent, result) must agree. "
+        "Also: Grids on swappers with random groupings (12%), a second Grid on the same manager that must not be disturbed (25%), the caller's coordinate arrays must stay untouched, default communicator argument (30%), fresh str objects for the names. "
+        'cases 0..398 (quick; thorough also 399..1196 on two more configurations) = every operation '
         'sequence of length 1-3 over {setLayout x3, overwrite, save, restore, free} on a fixed small '
         'configuration; remaining cases = seeded histories of length 1-25 (biased to save / k layout '
         'changes / overwrite / restore) on random configurations: Grid on a LayoutHandler (4-D standard '
